@@ -33,6 +33,8 @@ def showResp : NbResp → String
   | .errMac => "Err(Mac)"
 
 structure Run where
+  /-- `hold`: the application does not collect downlinks after every call (they stay queued until `take`) -/
+  hold : Bool := false
   r : NbRun
   rng : RngSt
   cfg : NbCfg
@@ -46,12 +48,12 @@ inductive EvOut where
   | bad
 
 def doStep (run : Run) (items : List NbItem) (ev : NbEvent) (up : String) : EvOut :=
-  let r0 : NbRun := { run.r with script := items, calls := [], downlinks := [] }
+  let r0 : NbRun := { run.r with script := items, calls := [], downlinks := (if run.hold then run.r.downlinks else []) }
   match nbStep rngNext run.cfg r0 ev run.rng with
   | .ok (resp, r, g) =>
     let calls := String.intercalate ";" (r.calls.reverse.map showCall)
     let hasTx := r.calls.any (fun c => match c with | .txRequest _ _ => true | _ => false)
-    .out s!"calls={calls} => {showResp resp} {if hasTx then up else "up=-"} dls={showDls r.downlinks}" { run with r := r, rng := g }
+    .out s!"calls={calls} => {showResp resp} {if hasTx then up else "up=-"} dls={if run.hold then "-" else showDls r.downlinks}" { run with r := r, rng := g }
   | .error f => .fault (showFault f)
 
 def stepEvent (run : Run) (ev : String) : EvOut :=
@@ -102,6 +104,8 @@ def stepEvent (run : Run) (ev : String) : EvOut :=
     match parseNat? n with
     | some n => .out "ok" { run with r := { run.r with m := macSetDatarate run.r.m n } }
     | none => .bad
+  | ["hold"] => .out "ok" { run with hold := true }
+  | ["take"] => .out s!"dls={showDls run.r.downlinks}" { run with r := { run.r with downlinks := [] } }
   | ["snap"] => .out (showSnap run.r.m) run
   | _ => .bad
 
